@@ -77,6 +77,63 @@ def flag_writes(prog, crate="minijinja_autoreload", field=None, adt=IMPL):
     return out
 
 
+CALLS_CLOSURE = ("core::ops::function::FnOnce::call_once", "core::ops::function::FnMut::call_mut", "core::ops::function::Fn::call")
+
+
+def _under_guard(prog, f, o, depth=3):
+    """the NotifierImpl behind origin `o` of fn `f` is the inside of a held MutexGuard: the deref of a guard, or a
+    parameter of a private function / closure that every call site fills with one (`with_state(|state| ..)`)"""
+    if o.kind == "call":
+        return o.call.name in DEREFS
+    if o.kind != "arg" or depth == 0 or any(isinstance(x, str) and x != "*" for x in o.proj):
+        return False
+    if f.kind == "closure":
+        # who invokes the closure: the callee it is handed to, or its own parent
+        k = o.arg - 2
+        if k < 0:
+            return False
+        parent = prog.fns.get(f.root)
+        if parent is None:
+            return False
+        sites = []      # (fn, call of call_once.., tuple position)
+        for host in [parent] + [h for h in prog.closures_of(parent.path) if h is not f]:
+            for c in host.calls():
+                for j, a in enumerate(c.args):
+                    if not any(x.kind == "agg" and x.rv.get("closure") == f.path for x in flow.origins(host, a)):
+                        continue
+                    if c.name in CALLS_CLOSURE and j == 0:
+                        sites.append((host, c))
+                        continue
+                    callee = prog.fns.get(c.resolved or c.path) or prog.fns.get(c.name)
+                    if callee is None or callee.crate != f.crate:
+                        return False        # handed to code that is not analysed here
+                    inner = [k_ for k_ in callee.calls() if k_.name in CALLS_CLOSURE and any(
+                        x.kind == "arg" and x.arg == j + 1 and not x.proj for x in flow.origins(callee, k_.args[0]))]
+                    if not inner:
+                        return False
+                    sites += [(callee, k_) for k_ in inner]
+        if not sites:
+            return False
+        for host, c in sites:
+            tup = [x for x in flow.origins(host, c.args[1]) if x.kind == "agg"]
+            if len(tup) != 1 or k >= len(tup[0].rv["ops"]):
+                return False
+            os_ = flow.origins(host, tup[0].rv["ops"][k])
+            if not os_ or not all(_under_guard(prog, host, x, depth - 1) for x in os_):
+                return False
+        return True
+    callers = [c for c in prog.callers().get(f.path, [])]
+    if not callers or f.is_pub:
+        return False
+    for c in callers:
+        if o.arg - 1 >= len(c.args):
+            return False
+        os_ = flow.origins(c.fn, c.args[o.arg - 1])
+        if not os_ or not all(_under_guard(prog, c.fn, x, depth - 1) for x in os_):
+            return False
+    return True
+
+
 def impl_accesses(prog, adt=IMPL, crate="minijinja_autoreload"):
     """(fn, bb, base local) of every place that projects a field of NotifierImpl"""
     out = []
@@ -147,9 +204,12 @@ def run(ctx):
     from .. import inline
     base = ctx.prog
     flaggers = {f.path for f, _, _ in flag_writes(base)}
+    # a function that writes the flag through a closure it hands to a helper (`self.with_state(|s| s.should_reload = true)`)
+    # is a flag writer like one that writes it itself
+    flaggers |= {f.root for f, _, _ in flag_writes(base) if f.kind == "closure" and f.root}
     anchors = [ACQ, REQ, SHOULD] + [k for k, f_ in base.fns.items() if f_.crate == "minijinja_autoreload" and "with_fs_watcher" in k]
     prog = inline.Overlay(base, anchors, keep=lambda t: not t.startswith("minijinja_autoreload::") or t in flaggers or t in (
-        "minijinja_autoreload::Notifier::handle", SHOULD, REQ, ACQ, "minijinja_autoreload::Notifier::fast_reload"))
+        "minijinja_autoreload::Notifier::handle", SHOULD, REQ, ACQ, "minijinja_autoreload::Notifier::fast_reload"), closures=True)
     acq = prog.fn(ACQ)
 
     writes = flag_writes(prog)
@@ -295,7 +355,7 @@ def run(ctx):
     ctx.floor("C20.A3 NotifierImpl field accesses", len(acc), 10)
     for f, bb, p in acc:
         os_ = flow.origins(f, p["l"])
-        ok = bool(os_) and all(o.kind == "call" and o.call.name in DEREFS for o in os_)
+        ok = bool(os_) and all(_under_guard(base, f, o) for o in os_)
         ctx.ob("C20.A3.access-under-lock", "%s|%s" % (f.path, ".".join(flow._proj_names(p))), ok,
                "NotifierImpl field reached through %r, not a MutexGuard" % os_, f.where(bb))
     # the guard locked at entry is the one handed out
@@ -318,7 +378,7 @@ def run(ctx):
     ctx.floor("C20.A3 EnvironmentGuard constructions", n, 1)
 
     # A4: no path from the reset to a return loses the request
-    setters = {f.path for f, _ in sets}
+    setters = {f.path for f, _ in sets} | {f.root for f, _ in sets if f.kind == "closure" and f.root}
     split = errflow.ok_err_blocks(acq, pc.call) if pc.call is not None and \
         acq.locals[pc.call.dest["l"]].get("adt") == "core::result::Result" else None
     if split is None or not split[0]:
